@@ -125,7 +125,7 @@ def detect(pid, x, props):
     ok, o = apply_patch("/repo", os.path.join(sd, "patch.diff"))
     if not ok:
         print("patch does not apply to /repo:", o[-1000:])
-        sh("git checkout -q -- .", cwd="/repo")
+        sh("git reset -q --hard HEAD", cwd="/repo")
         return 2
     results = {}
     try:
@@ -135,7 +135,7 @@ def detect(pid, x, props):
             sigs = [l.strip() for l in out.splitlines() if l.strip().startswith("signature:")]
             results[p] = {"exit": rc, "violations": viol, "signatures": sigs[:6], "tail": out[-600:] if rc not in (0, 1) else ""}
     finally:
-        sh("git checkout -q -- .", cwd="/repo")
+        sh("git reset -q --hard HEAD", cwd="/repo")
     print(json.dumps(results, indent=1))
     out = os.path.join("/tmp/seed-out/%s/%s" % (pid, x), "detected.json")
     os.makedirs(os.path.dirname(out), exist_ok=True)
